@@ -313,6 +313,14 @@ def judge_parse(prop, wf, il, dl):
         return ("BROKEN", f"driver: {dl[:80]}")
     model, verdict = parts
     outcome = il.split(" ")[0]
+    if verdict.startswith("accept "):
+        # a formula whose per-key total leaves i32 is outside every property's domain (arithmetic overflow: a debug build
+        # panics there, a release build wraps); the grammar oracle counts in unbounded integers
+        try:
+            if any(abs(int(kv.rsplit("=", 1)[1])) > I32MAX for kv in verdict.split(" ", 1)[1].split(",") if "=" in kv):
+                return None
+        except ValueError:
+            pass
     if outcome in ("panic", "abort") or il.startswith("entry-points-differ"):
         # entry points must agree (C01); no entry point may panic (C05)
         if il.startswith("entry-points-differ"):
